@@ -25,6 +25,13 @@ def candidate_source(fm, L):
     if isinstance(it, Op) and it.op == "enumerate":
         it = it.args[0]
     its = list_items(I, it) if isinstance(it, Ref) else None
+    if its and len(its) == 2 and its[0][0] == "rep" and its[1][0] == "v" and isinstance(its[1][1], Op) and its[1][1].op == "listmut:sort" \
+            and fm.norm(its[1][2]) == TRUE:
+        # one pass appended the names, then the list was sorted in place (on a path the analysis keeps conditional only
+        # because the directory might have been unreadable)
+        _, Lf, term, g = its[0]
+        kw = {kv.args[0].v: fm.norm(kv.args[1]) for kv in its[1][1].args if isinstance(kv, Op) and kv.op == "kv"}
+        return dict(kw=kw, Lf=Lf, elem=fm.norm(term), guard=fm.norm(g)), ""
     if not its or len(its) != 1 or its[0][0] != "v" or its[0][2] != TRUE:
         return None, "it iterates %r, which is not one sorted list" % (it,)
     sp = fm.norm(its[0][1])
@@ -242,16 +249,21 @@ def check_summary(rep, prog):
     st = pelx.new_stream(I)
     cfg = I.new("pel.peltool.config.Config")
     I.call(PT + "parsePELSummary", [st, cfg])
-    sts = {}
-    for e in I.events:
-        if e.kind == "dict_store" and e.func == PT + "parsePELSummary" and is_const(e.data[1], str):
-            sts.setdefault(e.data[1].v, []).append(e)
-    # the document the full decode would show for the two headers (same interpretation: generatePH/UH inlined)
+    # the document the full decode would show for the two headers (same interpretation: the header decoders inlined) -
+    # wherever the store into the output happens (generatePH/UH themselves or a shared helper)
     docs = {}
+    doc_refs = set()
     for e in I.events:
-        if e.kind == "dict_store" and e.func in (PT + "generatePH", PT + "generateUH") and is_const(e.data[1], str):
+        if e.kind == "dict_store" and is_const(e.data[1], str) and e.data[1].v in ("Private Header", "User Header") and \
+                pelx.dict_entries(I, e.data[2]) is not None:
             ents, _ = pelx.final_entries(I, e.data[2])
             docs[e.data[1].v] = {k: v[-1][1] for k, v in ents.items() if k is not None}
+            doc_refs.add(e.data[2])
+    sts = {}
+    for e in I.events:
+        if e.kind == "dict_store" and is_const(e.data[1], str) and e.data[0] not in doc_refs and \
+                e.data[1].v in ("PLID", "CreatorID", "Subsystem", "Sev", "CompID", "Commit Time", "SRC", "Message"):
+            sts.setdefault(e.data[1].v, []).append(e)
     if "Private Header" not in docs or "User Header" not in docs:
         raise AnalysisError("header decoders do not store 'Private Header' / 'User Header' documents")
     want = {"PLID": ("Private Header", "Platform Log Id"), "CreatorID": ("Private Header", "Creator Subsystem"),
